@@ -124,19 +124,43 @@ def toDot (g : G Label Hex) : String := renderDot (exportDoc g)
 def debugDoc (g : G Label Hex) : List (Rd.VNode Label (List UInt8)) :=
   ((List.range (cap g)).filter (fun v => tag g v ≠ 0)).map (fun v => ⟨v, edg g v, dataOf g.vs[v]!⟩)
 
-def debugLine (n : Rd.VNode Label (List UInt8)) : String :=
-  let attrs := n.edges.map (fun e => s!"\n\t{labelText e.1} ➞ ν{e.2}") ++
-    (match n.data with
-     | some bs => [hexText bs]
-     | none => [])
-  s!"ν{n.id} -> ⟦{", ".intercalate attrs}⟧"
+/-! #### `Debug` / `Display`, character by character -/
 
-def branchLines (g : G Label Hex) : List String :=
-  (List.range g.br.size).filterMap (fun b =>
-    let ms := mem g b
-    if ms.isEmpty then none else some (s!"b{b}: " ++ "{" ++ ", ".intercalate (ms.map (fun v => s!"ν{v}")) ++ "}"))
+def iArrow : List Char := [' ', '➞', ' ', 'ν']
+def gHead : List Char := [' ', '-', '>', ' ', '⟦']
+def gSep : List Char := [',', ' ']
 
-def toDebug (g : G Label Hex) : String := "\n".intercalate ((debugDoc g).map debugLine ++ branchLines g)
+/-- items separated by `, ` -/
+def joinSep : List (List Char) → List Char
+  | [] => []
+  | [x] => x
+  | x :: y :: r => x ++ gSep ++ joinSep (y :: r)
+
+/-- lines separated (not terminated) by newlines -/
+def joinNl : List (List Char) → List Char
+  | [] => []
+  | [l] => l
+  | l :: l' :: ls => l ++ '\n' :: joinNl (l' :: ls)
+
+def debugEdge (e : Label × Nat) : List Char := '\n' :: '\t' :: (Lb.print e.1 ++ iArrow ++ nat10 e.2)
+
+def debugItems (n : Rd.VNode Label (List UInt8)) : List (List Char) :=
+  n.edges.map debugEdge ++ (match n.data with
+    | some bs => [HD.print bs]
+    | none => [])
+
+def debugNodeChars (n : Rd.VNode Label (List UInt8)) : List Char :=
+  'ν' :: nat10 n.id ++ gHead ++ joinSep (debugItems n) ++ ['⟧']
+
+def branchChars (b : Nat) (ms : List Nat) : List Char :=
+  'b' :: nat10 b ++ [':', ' ', '{'] ++ joinSep (ms.map (fun v => 'ν' :: nat10 v)) ++ ['}']
+
+def branchLines (g : G Label Hex) : List (List Char) :=
+  (List.range g.br.size).filterMap (fun b => let ms := mem g b; if ms.isEmpty then none else some (branchChars b ms))
+
+def debugChars (g : G Label Hex) : List Char := joinNl ((debugDoc g).map debugNodeChars ++ branchLines g)
+
+def toDebug (g : G Label Hex) : String := String.ofList (debugChars g)
 
 /-- `v_print`: `none` = panic (id at or above the capacity) -/
 def vPrint (g : G Label Hex) (v : Nat) : Option String :=
@@ -180,17 +204,9 @@ def inspectLines (g : G Label Hex) (v : Nat) : Option (List Line) := (expandL g 
 
 /-! #### the text of `inspect`, character by character -/
 
-def iArrow : List Char := [' ', '➞', ' ', 'ν']
-
 def lineChars (l : Line) : List Char :=
   List.replicate (2 * l.depth) ' ' ++ [' ', ' ', '.'] ++ Lb.print l.label ++ iArrow ++ nat10 l.target ++
     (if l.ellipsis then ['…'] else [])
-
-/-- lines separated (not terminated) by newlines -/
-def joinNl : List (List Char) → List Char
-  | [] => []
-  | [l] => l
-  | l :: l' :: ls => l ++ '\n' :: joinNl (l' :: ls)
 
 def inspectChars (v : Nat) (ls : List Line) : List Char := 'ν' :: nat10 v ++ '\n' :: joinNl (ls.map lineChars)
 
